@@ -7,8 +7,11 @@ import (
 	"encoding/json"
 	"fmt"
 	evclient "github.com/EscanBE/evermint/v12/client"
+	cpcabi "github.com/EscanBE/evermint/v12/x/cpc/abi"
+	cpceip712 "github.com/EscanBE/evermint/v12/x/cpc/eip712"
 	sdkclient "github.com/cosmos/cosmos-sdk/client"
 	"github.com/cosmos/cosmos-sdk/crypto/keyring"
+	cmath "github.com/ethereum/go-ethereum/common/math"
 	"github.com/spf13/cobra"
 	"io"
 	"math/big"
@@ -731,6 +734,56 @@ func TestEngineCrypto(t *testing.T) {
 			p.Oracle("C19-encoding-roundtrip", "a key of the wrong size is accepted")
 		}
 		p.Count("encoding")
+	}
+	// the typed messages of the staking precompile (x/cpc/eip712, x/cpc/abi): digest against an independent construction,
+	// honest signature verifies, every single-field perturbation (amounts differing by 2^64 included) changes the digest
+	for i := 0; i < n/10; i++ {
+		signer := c.wallets[1+r.Intn(3)]
+		key, _ := signer.PrivateKey.ToECDSA()
+		amount := new(big.Int).Add(r.BigBits(8+r.Intn(240)), big.NewInt(1))
+		action := hx.Pick(r, []string{"Delegate", "Undelegate", "Redelegate"})
+		old := "-"
+		if action == "Redelegate" {
+			old = vals[r.Intn(len(vals))].OperatorAddress
+		}
+		msg := cpcabi.StakingMessage{Action: action, Delegator: signer.GetEthAddress(), Validator: vals[r.Intn(len(vals))].OperatorAddress, Amount: amount, Denom: c.evmDenom, OldValidator: old}
+		fields := []apitypes.Type{{Name: "action", Type: "string"}, {Name: "delegator", Type: "address"}, {Name: "validator", Type: "string"}, {Name: "amount", Type: "uint256"}, {Name: "denom", Type: "string"}, {Name: "oldValidator", Type: "string"}}
+		indep := func(m cpcabi.StakingMessage, chainID *big.Int) []byte {
+			return stakingTypedDigest("StakingMessage", fields, apitypes.TypedDataMessage{"action": m.Action, "delegator": m.Delegator.String(), "validator": m.Validator, "amount": (*cmath.HexOrDecimal256)(m.Amount), "denom": m.Denom, "oldValidator": m.OldValidator}, chainID)
+		}
+		want := indep(msg, c.chainID)
+		got, err := cpceip712.EIP712HashingTypedMessage(&msg, c.chainID)
+		if err != nil || !bytes.Equal(got, want) {
+			p.Oracle("C19-cpc-typed-digest", "StakingMessage amount=%s: x/cpc digest %x (%v), independent EIP-712 digest %x", amount, got, err, want)
+		}
+		sig, _ := crypto.Sign(want, key)
+		var rr, ss [32]byte
+		copy(rr[:], sig[:32])
+		copy(ss[:], sig[32:64])
+		if ok, _, err := cpceip712.VerifySignature(signer.GetEthAddress(), &msg, rr, ss, sig[64], c.chainID); err != nil || !ok {
+			p.Oracle("C19-valid-signature-rejected", "x/cpc VerifySignature rejects an honest signature over StakingMessage amount=%s (%v)", amount, err)
+		}
+		perturbed := []cpcabi.StakingMessage{msg, msg, msg, msg, msg, msg}
+		perturbed[0].Amount = new(big.Int).Add(amount, new(big.Int).Lsh(big.NewInt(1), 64))
+		perturbed[1].Amount = new(big.Int).Add(amount, big.NewInt(1))
+		perturbed[2].Validator = vals[(r.Intn(len(vals)-1)+1)%len(vals)].OperatorAddress + "x"
+		perturbed[3].Denom = "utwo"
+		perturbed[4].Action = map[string]string{"Delegate": "Undelegate", "Undelegate": "Delegate", "Redelegate": "Delegate"}[action]
+		perturbed[5].Delegator = c.wallets[4].GetEthAddress()
+		for j, pm := range perturbed {
+			pm := pm
+			d2, err := cpceip712.EIP712HashingTypedMessage(&pm, c.chainID)
+			if err == nil && bytes.Equal(d2, got) {
+				p.Oracle("C19-eip712-collision", "StakingMessage perturbation %d leaves the x/cpc digest unchanged (amount %s vs %s)", j, amount, pm.Amount)
+			}
+			if ok, _, _ := cpceip712.VerifySignature(signer.GetEthAddress(), &pm, rr, ss, sig[64], c.chainID); ok {
+				p.Oracle("C19-signature-accepts-other-message", "x/cpc VerifySignature accepts a signature for another StakingMessage (perturbation %d, amount %s vs %s)", j, amount, pm.Amount)
+			}
+		}
+		if ok, _, _ := cpceip712.VerifySignature(signer.GetEthAddress(), &msg, rr, ss, sig[64], new(big.Int).Add(c.chainID, big.NewInt(1))); ok {
+			p.Oracle("C19-signature-accepts-other-message", "x/cpc VerifySignature accepts a signature for another chain id")
+		}
+		p.Count("cpc-typed")
 	}
 	// the key export / import commands (`keys unsafe-export-eth-key`, `keys unsafe-import-eth-key`): what is exported is
 	// the hex of the 32 key bytes and imports back to the same key — also for a key whose first byte is zero
